@@ -78,7 +78,7 @@ Definition int_disc (A : ast) (u : union_t) : Prop := disc_type A u = U32 \/ dis
 Definition label_ok (A : ast) (u : union_t) (l : string) : Prop :=
   match get_const A l with
   | Some (ConstValue v) => int_disc A u /\ exists z, lit_value v = Some z
-  | Some (EnumValue e m) => un_sw_type u = Ident e /\
+  | Some (EnumValue e m) => (un_sw_type u = Ident e \/ un_sw_type u = U32 \/ un_sw_type u = I32) /\
                             exists en vv, get_type A e = Some (TEnum en) /\ In (m, vv) (en_variants en)
   | None => (disc_type A u = TBool /\ (l = "TRUE" \/ l = "FALSE")%string) \/
             (int_disc A u /\ exists z, lit_value l = Some z)
@@ -165,6 +165,27 @@ Section Sel.
     rewrite (int_literal_string_of_Z x ltac:(lia)). eauto.
   Qed.
 
+  Lemma assoc_map_snd {X Y} (g : X -> Y) m (l : list (string * X)) :
+    assoc m (map (fun v => (fst v, g (snd v))) l) = option_map g (assoc m l).
+  Proof. induction l as [|[k x] r IH]; [reflexivity|]. cbn [map assoc fst snd]. destruct (String.eqb m k); [reflexivity|exact IH]. Qed.
+
+  (* the value the emitted enum gives a member is the value of the first member of that name *)
+  Lemma enum_value_val e en m vv :
+    get_type A e = Some (TEnum en) -> In (m, vv) (en_variants en) ->
+    exists x, enum_value md e m = Some x /\ enum_member_val A e m = Some x /\ (0 <= x < 2147483648)%Z.
+  Proof.
+    intros Hget Hin. unfold enum_value, enum_member_val. rewrite (find_enum_decl e en Hget), Hget.
+    unfold enum_texts.
+    rewrite (assoc_map_snd (fun sv => match sv with VNum z => string_of_Z z | VStr s => s end) m (en_variants en)).
+    destruct (assoc m (en_variants en)) as [v0|] eqn:Ea.
+    - apply assoc_In in Ea.
+      destruct (proj1 (sup_enum A Hcore e en Hget) (m, v0) Ea) as [x [Hx Hr]]. cbn [snd] in Hx. subst v0.
+      cbn [option_map]. rewrite (int_literal_string_of_Z x ltac:(lia)). exists x. repeat split; lia.
+    - exfalso. clear - Hin Ea. induction (en_variants en) as [|[k v] r IH]; [contradiction|].
+      cbn [assoc] in Ea. destruct (String.eqb_spec m k) as [->|N]; [discriminate|].
+      destruct Hin as [E|Hin]; [inversion E; congruence|now apply IH].
+  Qed.
+
   (* ---------- a label's pattern matches exactly the values the label stands for ---------- *)
 
   Lemma label_agree u l d dd :
@@ -178,15 +199,27 @@ Section Sel.
       rewrite (safe_name_numeral v z Hi). rewrite Hz. cbn [matches]. unfold classify. rewrite Hi.
       destruct Hint as [E|E]; rewrite E in Td; inversion Td; subst; cbn in Hdd; inversion Hdd; reflexivity.
     - (* an enum member *)
-      destruct Hl as [Hsw [en [vv [Hen Hin]]]].
-      assert (Hdt : disc_type A u = Ident e) by (unfold disc_type; now rewrite Hsw, Hen).
-      rewrite Hdt in Td. inversion Td as [| | | | | | | | |? ? Tn]; subst.
-      inversion Tn; subst; try congruence. cbn in Hdd. inversion Hdd; subst dd.
-      rewrite Hsw. cbn [matches].
-      match goal with Hen' : get_type A ?e' = Some (TEnum en) |- _ =>
-        rewrite (sup_keys_safe A Hcore e' _ Hen'); rewrite !String.eqb_refl; cbn [andb];
-        destruct (enum_value_member e' en m vv Hen' Hin) as [x Hx]; rewrite Hx; reflexivity
-      end.
+      destruct Hl as [Hsw [en [vv [Hen Hin]]]]. destruct Hsw as [Hsw|Hsw].
+      + assert (Hdt : disc_type A u = Ident e) by (unfold disc_type; now rewrite Hsw, Hen).
+        rewrite Hdt in Td. inversion Td as [| | | | | | | | |? ? Tn]; subst.
+        inversion Tn; subst; try congruence. cbn in Hdd. inversion Hdd; subst dd.
+        rewrite Hsw. cbn [matches].
+        match goal with Hen' : get_type A ?e' = Some (TEnum en) |- _ =>
+          rewrite (sup_keys_safe A Hcore e' _ Hen'); rewrite !String.eqb_refl; cbn [andb];
+          destruct (enum_value_member e' en m vv Hen' Hin) as [x Hx]; rewrite Hx; reflexivity
+        end.
+      + (* on an integer discriminant: `c if c == E::M as u32` *)
+        pose proof (enum_value_val e en m vv Hen Hin) as [x [Hx [Hv Hr]]].
+        assert (Hw32 : wrap_u32 x = x) by (unfold wrap_u32; rewrite Z.mod_small; lia).
+        assert (Hwi : wrap_i32 x = x).
+        { unfold wrap_i32, to_i32. rewrite Z.mod_small by lia.
+          destruct (N.ltb_spec (Z.to_N x) 2147483648); lia. }
+        destruct Hsw as [Hsw|Hsw]; rewrite Hsw in *;
+          (assert (Hdt : disc_type A u = un_sw_type u) by (unfold disc_type; rewrite Hsw; reflexivity));
+          rewrite Hdt, Hsw in Td; inversion Td; subst; cbn in Hdd; inversion Hdd; subst dd;
+          cbn [matches as_safe_string bt_as_str]; rewrite Hx; cbn [option_map]; rewrite Hv.
+        * cbn. now rewrite Hw32.
+        * cbn. now rewrite Hwi.
     - destruct Hl as [[Hb Hl]|[Hint [z Hz]]].
       + (* TRUE / FALSE *)
         rewrite Hb in Td. inversion Td; subst. cbn in Hdd. inversion Hdd; subst dd.
